@@ -262,6 +262,32 @@ type Twice struct {
 	N int `db:"n"`
 }
 
+// a Scanner that counts how often it was scanned into: a fresh destination element sees exactly one Scan
+type Counted struct {
+	V int64
+	N int
+}
+
+func (c *Counted) Scan(v any) error {
+	c.N++
+	switch x := v.(type) {
+	case int64:
+		c.V = x
+	case nil:
+		c.V = 0
+	default:
+		return fmt.Errorf("cannot scan %T into Counted", v)
+	}
+	return nil
+}
+func (c Counted) Value() (driver.Value, error) { return c.V, nil }
+
+type Tracked struct {
+	ID int     `db:"id"`
+	C  Counted `db:"c"`
+	D  Counted `db:"d"`
+}
+
 // named byte-slice types: database/sql special-cases only the unnamed []byte
 type Blob []byte
 
@@ -287,12 +313,12 @@ var zooSamples = []zooEntry{
 	{"Rec", Rec{}}, {"RecA", RecA{}}, {"RecRoot", RecRoot{}}, {"M", sqlair.M{}}, {"IntMap", IntMap{}}, {"KM", KM{}}, {"BadMap", BadMap{}},
 	{"S", sqlair.S{}}, {"IntSlice", IntSlice{}}, {"StrSlice", StrSlice{}}, {"PersonSlice", PersonSlice{}},
 	{"Priced", Priced{}}, {"TaggedEmbed", TaggedEmbed{}}, {"EmbedUnexported", EmbedUnexported{}},
-	{"EmbedNonStruct", EmbedNonStruct{}}, {"Mixed", Mixed{}}, {"Doc", Doc{}}, {"Diamond", Diamond{}}, {"Twice", Twice{}},
+	{"EmbedNonStruct", EmbedNonStruct{}}, {"Mixed", Mixed{}}, {"Doc", Doc{}}, {"Diamond", Diamond{}}, {"Twice", Twice{}}, {"Tracked", Tracked{}},
 	{"zoo2.Person", zoo2.Person{}}, {"zoo2.M", zoo2.M{}}, {"zoo2.IntSlice", zoo2.IntSlice{}},
 }
 
 // good types for statement generation (Prepare succeeds with them)
-var goodStructs = []string{"Person", "Address", "Manager", "Embed", "EmbedPtr", "Deep", "Deep4", "Contact", "AutoID", "AutoID", "Omit", "PtrFields", "Quoted", "Unicode", "Numeric", "Priced", "TaggedEmbed", "EmbedUnexported", "EmbedNonStruct", "Mixed", "Doc", "Diamond", "Twice"}
+var goodStructs = []string{"Person", "Address", "Manager", "Embed", "EmbedPtr", "Deep", "Deep4", "Contact", "AutoID", "AutoID", "Omit", "PtrFields", "Quoted", "Unicode", "Numeric", "Priced", "TaggedEmbed", "EmbedUnexported", "EmbedNonStruct", "Mixed", "Doc", "Diamond", "Twice", "Tracked"}
 var goodMaps = []string{"M", "IntMap", "KM"}
 var goodSlices = []string{"S", "IntSlice", "StrSlice", "PersonSlice"}
 
